@@ -5,19 +5,32 @@ from . import core, runner, smtlib, evalsmt, refs, families as F, scriptmc as S
 
 # micro-pools (DESIGN appendix A): assertions whose subsets cross the sat/unsat border in many ways
 POOLS = {
-    'PROP': ['(or p q)', '(or (not p) r)', '(or (not q) r)', '(not r)', '(xor p q)', '(= p (not q))'],
-    'QF_UF': ['(or p (= a b))', '(not (= (f a) (f b)))', '(or (not p) (= b c))', '(= a c)', '(not p)', '(distinct a b c)'],
-    'QF_LRA': ['(or p (< x y))', '(or (not p) (< x 0))', '(> x 1)', '(>= x (+ y 1))', '(<= (* 2 x) 2)'],
-    'QF_LIA': ['(> x y)', '(or (> y x) (= (mod x 2) 1))', '(= x (* 2 y))', '(< (- x y) 2)', '(= (+ (* 2 x) (* 2 z)) 7)'],
-    'QF_IDL': ['(<= (- x y) (- 1))', '(<= (- y z) (- 1))', '(or (<= (- z x) 1) (<= (- z x) 2147483648))', '(< (- z x) 2)', '(>= (- x z) 0)'],
-    'QF_RDL': ['(< (- x y) 0)', '(<= (- y z) (/ 1 2))', '(or (< (- z x) 0) (<= (- z x) (- (/ 1 2))))', '(>= (- x z) 0)', '(> (- y x) 3)'],
+    'PROP': ['(or p q)', '(not p)', '(not q)', '(or (not p) r)', '(not r)', '(= p (not q))'],
+    'QF_UF': ['(= a c)', '(distinct a b c)', '(or p (= a b))', '(not (= (f a) (f b)))', '(not p)', '(or (not p) (= b c))'],
+    'QF_LRA': ['(> x 1)', '(<= (* 2 x) 2)', '(or p (< x y))', '(or (not p) (< x 0))', '(>= x (+ y 1))'],
+    'QF_LIA': ['(= x (* 2 y))', '(= (mod x 2) 1)', '(> x y)', '(or (> y x) (< x 0))', '(= (+ (* 2 x) (* 2 z)) 7)'],
+    'QF_IDL': ['(<= (- x y) (- 1))', '(<= (- y x) 0)', '(<= (- y z) (- 1))', '(< (- z x) 2)', '(or (<= (- z x) 1) (<= (- z x) 2147483648))'],
+    'QF_RDL': ['(< (- x y) 0)', '(<= (- y x) 0)', '(<= (- y z) (/ 1 2))', '(or (< (- z x) 0) (<= (- z x) (- (/ 1 2))))', '(> (- y x) 3)'],
     'QF_UFLRA': ['(<= x y)', '(<= y x)', '(not (= (f x) (f y)))', '(or (> (f x) 0) p)', '(< (f y) 0)'],
     'QF_UFLIA': ['(< x (+ y 1))', '(< y (+ x 1))', '(not (= (f x) (f y)))', '(or (> (f x) 0) p)', '(< (f y) 0)'],
-    'QF_AX': ['(= b (store a i e))', '(not (= (select b j) (select a j)))', '(not (= i j))', '(or (= a b) (= i j))', '(not (= (select a i) e))'],
-    'QF_ALIA': ['(= b (store a i 5))', '(not (= (select b j) (select a j)))', '(< i j)', '(or (= a b) (> i j))', '(> (select a i) 5)'],
+    'QF_AX': ['(= b (store a i e))', '(not (= (select b i) e))', '(not (= (select b j) (select a j)))', '(not (= i j))', '(or (= a b) (= i j))'],
+    'QF_ALIA': ['(= b (store a i 5))', '(> (select b i) 5)', '(not (= (select b j) (select a j)))', '(< i j)', '(or (= a b) (> i j))'],
     'QF_UFIDL': ['(<= (- x y) 0)', '(<= (- y x) 0)', '(not (= (f x) (f y)))', '(or (< (- (f x) (f y)) 0) p)', '(P x)'],
     'QF_UFRDL': ['(<= (- x y) 0)', '(<= (- y x) 0)', '(not (= (f x) (f y)))', '(or (< (- (f x) (f y)) 0) p)', '(not (P y))'],
 }
+
+
+def pool_structure(famname, k):
+    """sat/unsat structure of the first k pool assertions per the reference layer: (n_unsat_subsets, minimal cores)"""
+    fam = F.FAMILIES[famname]; pool = POOLS[famname][:k]
+    unsat = []
+    for r in range(1, k + 1):
+        for c in itertools.combinations(range(k), r):
+            if refs.is_unsat(fam.logic, fam.decls, [pool[i] for i in c]): unsat.append(set(c))
+    mins = [u for u in unsat if not any(v < u for v in unsat)]
+    return len(unsat), [tuple(sorted(m)) for m in mins]
+
+
 HIST_LOGICS_QUICK = ['PROP', 'QF_UF', 'QF_LRA', 'QF_LIA', 'QF_IDL', 'QF_RDL', 'QF_UFLRA', 'QF_AX']
 HIST_LOGICS_ALL = list(POOLS.keys())
 
@@ -116,15 +129,16 @@ def query_for(opts, fam):
 
 def hist_task(task):
     """judge every check-sat of every history in the slice with the monitor of `prop` (C01/C02/C03)"""
-    prop, famname, L, opts, start, step = task
-    fam = F.FAMILIES[famname]; pool = POOLS[famname][:4]
+    prop, famname, L, opts, start, step = task[:6]
+    k = task[6] if len(task) > 6 else 4
+    fam = F.FAMILIES[famname]; pool = POOLS[famname][:k]
     res = core.new_result(); cov = res['cov']
     w = S.worker()
-    hs = enumerate_histories(len(pool), L)
+    hs = enumerate_histories(len(pool), L, with_query=(k == 4))
     q = '(get-model)' if fam.models else '(get-info :name)'
     for hist in hs[start::step]:
         script = render(fam, pool, hist, opts, q)
-        r = w.run(script, timeout=20)
+        r = w.run(script, timeout=5)
         cov['executions'] += 1; cov['transitions'] += len(hist)
         if r.timeout or r.crash:
             cov['timeouts_or_crashes'] += 1; continue
@@ -188,9 +202,16 @@ def run_stage_histories(chk, prop, tier):
     L = 5
     tasks = [(prop, f, L, (), s, 4) for f in fams for s in range(4)]
     chk.run_stage('histories L<=%d, 4-assertion micro-pools, default options' % L, tasks, hist_task)
+    if prop != 'C03':
+        tasks = [(prop, f, 7, (), s, 8, 3) for f in fams for s in range(8)]
+        chk.run_stage('histories L<=7 over {push,pop,assert x3,check}, 3-assertion micro-pools, default options', tasks, hist_task)
     if tier == 'thorough':
         tasks = [(prop, f, 6, (), s, 32) for f in fams for s in range(32)]
-        chk.run_stage('histories L<=6, default options', tasks, hist_task)
+        chk.run_stage('histories L<=6, 4-assertion micro-pools, default options', tasks, hist_task)
+        if prop != 'C03':
+            for o in ('proofs', 'itp'):
+                tasks = [(prop, f, 7, (o,), s, 8, 3) for f in fams for s in range(8)]
+                chk.run_stage('histories L<=7, 3-assertion micro-pools, option %s' % o, tasks, hist_task)
         for o in ('lookahead', 'ghost', 'proofs', 'cores', 'itp'):
             tasks = [(prop, f, 5, (o,), s, 4) for f in fams for s in range(4)]
             chk.run_stage('histories L<=5, option %s' % o, tasks, hist_task)
